@@ -228,14 +228,20 @@ B('C-togo-own-columns', ['C09'], 'frame.py', 'FrameGO._to_frame',
   'own_columns=False, # all cases need new columns', 'own_columns=True,', 'C.', 'FrameGO._to_frame')
 B('C-toframe-no-copy', ['C09'], 'frame.py', 'Frame._to_frame',
   'self._blocks.copy()', 'self._blocks', 'C.own-handoff', 'Frame._to_frame')
-B('C-index-share-map', ['C09', 'C02'], 'index.py', 'Index.__init__',
+B('C-index-share-map', ['C09', 'C02', 'C01'], 'index.py', 'Index.__init__',
   'if (labels.STATIC and self.STATIC and dtype is None):', 'if (self.STATIC and dtype is None):', 'C.sharing-guards', 'Index.__init__')
-B('C-ih-share-levels', ['C09', 'C05'], 'index_hierarchy.py', 'IndexHierarchy.__init__',
+B('C-index-share-map-typed-arm', ['C09', 'C02', 'C01'], 'index.py', 'Index.__init__',
+  'if (labels.STATIC and self.STATIC and dtype is None):\n                    if not is_typed or (is_typed and self._DTYPE == labels.dtype):',
+  'if self.STATIC and dtype is None:\n                    if (not is_typed and labels.STATIC) or (is_typed and self._DTYPE == labels.dtype):', 'C.sharing-guards', 'Index.__init__')
+N('C-index-share-map-guard-nested', ['C09', 'C02', 'C01'], 'index.py', 'Index.__init__',
+  'if (labels.STATIC and self.STATIC and dtype is None):\n                    if not is_typed or (is_typed and self._DTYPE == labels.dtype):',
+  'if self.STATIC and dtype is None:\n                    if labels.STATIC and (not is_typed or (is_typed and self._DTYPE == labels.dtype)):')
+B('C-ih-share-levels', ['C09', 'C05', 'C01'], 'index_hierarchy.py', 'IndexHierarchy.__init__',
   'if self.STATIC and index_level.STATIC:', 'if index_level.STATIC:', 'C.sharing-guards', 'IndexHierarchy.__init__')
 B('C-optional-ctor-share', ['C09'], 'container_util.py', 'index_from_optional_constructor',
   '            if not value.STATIC:\n                # v: ~S, dc: ~S, both are mutable\n                return value.copy()',
   '            if not value.STATIC:\n                return value', 'C.sharing-guards', 'index_from_optional_constructor')
-B('C-immutable-filter-always', ['C09'], 'index.py', 'immutable_index_filter',
+B('C-immutable-filter-always', ['C09', 'C01'], 'index.py', 'immutable_index_filter',
   'if index.STATIC:\n        return index', 'if True:\n        return index', 'C.sharing-guards', 'immutable_index_filter')
 B('C-grow-shared-blocks', ['C09', 'C20'], 'frame.py', 'Frame.relabel_shift_in',
   'ih_blocks = index_target._blocks.copy() # will mutate copied blocks', 'ih_blocks = index_target._blocks', 'C.who-may-grow', 'relabel_shift_in')
@@ -464,7 +470,7 @@ N('P-rename-labels-list', ['C18'], 'batch.py', 'Batch.apply',
 # ---------------------------------------------------------------------------------- blocks (C03)
 B('K-raw-ctor-in-round', ['C03', 'C01'], 'type_blocks.py', 'TypeBlocks.__round__',
   "        return self.from_blocks(\n                self._ufunc_blocks(column_key=NULL_SLICE, func=func),\n                shape_reference=self._shape,\n                )",
-  "        return self.__class__(\n                blocks=list(self._ufunc_blocks(column_key=NULL_SLICE, func=func)),\n                dtypes=self._dtypes.copy(),\n                index=self._index.copy(),\n                shape=self._shape\n                )", 'I.typeblocks-raw', '__round__')
+  "        return self.__class__(\n                blocks=list(self._ufunc_blocks(column_key=NULL_SLICE, func=func)),\n                dtypes=self._dtypes.copy(),\n                index=self._index.copy(),\n                shape=self._shape\n                )", ('I.typeblocks-raw', 'A-R1'), '__round__')
 B('K-copy-shares-directory', ['C03', 'C09'], 'type_blocks.py', 'TypeBlocks.__copy__',
   'dtypes=self._dtypes.copy(), # list', 'dtypes=self._dtypes,', 'I.typeblocks-raw', '__copy__')
 B('K-from-blocks-skip-dtypes', ['C03'], 'type_blocks.py', 'TypeBlocks.from_blocks',
